@@ -20,7 +20,7 @@ ASSUMPTIONS = [
     "vlib/dskref.py (fsck written from the Disk BASIC format description) is the trusted reference",
     "a history that exceeds the capacity of the disk ends there (C15 owns the accounting)",
 ]
-HEALTH = {"multi_granule": 0.2, "edge_length": 0.2, "permuted": 0.2}
+HEALTH = {"multi_granule": 0.08, "edge_length": 0.08, "permuted": 0.08}
 EXHAUSTIVE = {"quick": ["single file of every data length 2280..2320 and 4590..4620 x 3 kinds x 3 fill orders"],
               "thorough": ["single file of every data length 2280..2320 and 4590..4620 x 3 kinds x 3 fill orders"]}
 
